@@ -53,4 +53,20 @@ def scenario(rng, flavour):
         st.update(strat_kw)
         sc["strategies"].append(st)
         common.agentgen.add_script(rng, sc, st, mix)
+    if flavour == "C10" and rng.random() < 0.4:
+        # multi-order trades whose legs are created up front and placed at different times
+        for m in sc["markets"]:
+            for u in m["updates"]:
+                for acts in (u.get("acts") or {}).values():
+                    extra = []
+                    for a in acts:
+                        if a["op"] == "place" and rng.random() < 0.25:
+                            leg = dict(a)
+                            leg["op"] = "create"
+                            leg["trade"] = -1
+                            leg["side"] = "LAY" if a["side"] == "BACK" else "BACK"
+                            extra.append(leg)
+                        elif rng.random() < 0.2:
+                            extra.append({"op": "place_pending", "order": -1})
+                    acts.extend(extra)
     return sc
